@@ -743,3 +743,49 @@ def check(sql, engine, externals=()):
 
 def problems(sql, engine, externals=()):
     return [repr(p) for p in check(sql, engine, externals).problems]
+
+
+# ------------------------------------------------------------------------ self-test
+
+_EXAMPLES = [
+    # (engine, sql, expected decoded literals) -- from the engines' documentation
+    ('bigquery', r'''SELECT "a\"b", 'it\'s', "é\n", r"a\b"''', ['a"b', "it's", 'é\n', 'a\\b']),
+    ('psql', r"""SELECT 'a''b', 'a\', E'a\\b\'c\n', $$ x ' y $$, $t$ $$ $t$""",
+     ["a'b", 'a\\', "a\\b'c\n", " x ' y ", ' $$ ']),
+    ('clickhouse', r"""SELECT 'a\\b', 'a''b', 'a\'b', 'x\ty'""", ['a\\b', "a'b", "a'b", 'x\ty']),
+    ('databricks', r'''SELECT "a\"b", 'é', 'a\\b' ''', ['a"b', 'é', 'a\\b']),
+    ('sqlite', "SELECT 'a\\', \"$.a\", 'x''y' -- c 'q\n , 'z' /* ' */", ['a\\', '$.a', "x'y", 'z']),
+    ('duckdb', r"""SELECT E'a\\b''c\t\n', 'p\q'""", ["a\\b'c\t\n", 'p\\q']),
+    ('trino', r"""SELECT 'a\', 'b''c'""", ['a\\', "b'c"]),
+    ('psql', "SELECT /* a /* nested */ 'x' */ 'y'", ['y']),
+    ('trino', "SELECT /* a /* not nested */ 'y'", ['y']),
+]
+_BAD = [('clickhouse', r"SELECT 'a\'"), ('bigquery', 'SELECT "a\nb"'),
+        ('bigquery', r'SELECT "a\qb"'), ('psql', "SELECT 'a"), ('trino', 'SELECT `a`')]
+
+
+def selftest():
+    for eng, sql, exp in _EXAMPLES:
+        got = strings(lex(sql, eng))
+        assert got == exp, (eng, sql, got, exp)
+    for eng, sql in _BAD:
+        try:
+            lex(sql, eng)
+        except LexError:
+            continue
+        raise AssertionError((eng, sql))
+    ok = "WITH a AS (SELECT 1 AS c), b AS (SELECT a.c AS c FROM a) SELECT b.c FROM b"
+    assert not check(ok, 'sqlite').problems
+    assert [p.kind for p in check(ok.replace('b.c FROM b', 'z.c FROM b'), 'sqlite').problems] \
+        == ['alias_scope']
+    assert [p.kind for p in check(
+        "WITH b AS (SELECT a.c AS c FROM a), a AS (SELECT 1 AS c) SELECT b.c FROM b",
+        'sqlite').problems] == ['unknown_table']
+    assert [p.kind for p in check("SELECT (1", 'psql').problems] == ['unbalanced']
+    assert [p.kind for p in check("SELECT LEN({0})", 'duckdb').problems] == ['placeholder']
+    return True
+
+
+if __name__ == '__main__':
+    selftest()
+    print('sqlscope selftest ok')
